@@ -10,6 +10,8 @@ import Glb.Generated.TrFsutil
 import Glb.Generated.TrNetutil
 import Glb.Model.PathCleanBytes
 import Glb.Model.AuxNetutil
+import Glb.Generated.TrHttpd
+import Glb.Model.Router
 
 namespace Glb.Tie.TrMisc
 open Glb.Go
@@ -32,5 +34,235 @@ theorem ResolveUrlPath_eq (base url : Bytes) :
     · simp [bind, Except.bind, pure, Except.pure, Glb.PathCleanBytes.resolveUrlPathB,
         Glb.PathClean.forceSlash, Glb.PathClean.fromSlash, LibPath.join2, LibPath.fromSlash, LibPath.clean,
         Glb.PathClean.slash, idxI, Glb.idx?, h]
+
+/-! ### netutil.SplitHostPort
+
+  Exact equality, panic payloads included: the only places where the payloads of `Glb.Go.idxI`/`slice`
+  and of the model's `idxPred?`/`slicePred?` differ are `addr[i-1]` / `addr[1:i-1]` with `i = 0`, and
+  these are only evaluated when `addr[0] == '['` and `addr[i] == ':'`, hence `i ≠ 0`.  (Neither side
+  ever panics: `Glb.Aux.Net.split_total`.) -/
+
+section SplitHostPort
+open Glb.Aux.Net
+
+private theorem lastColon_concat (l : Bytes) (c : UInt8) :
+    lastColon (l ++ [c]) = if c = colon then some l.length else lastColon l := by
+  induction l with
+  | nil => simp [lastColon]
+  | cons d l ih =>
+    simp only [List.cons_append, lastColon, ih, List.length_cons]
+    by_cases h : c = colon
+    · simp [h]
+    · simp [h]
+
+theorem SplitHostPort_eq (addr : Bytes) :
+    Glb.Tr.Netutil.SplitHostPort addr = Glb.Aux.Net.splitHostPort addr := by
+  unfold Glb.Tr.Netutil.SplitHostPort
+  dsimp only
+  rw [loop_eq (σ := Int) (ρ := Bytes × Bytes)
+    (Inv := fun i => -1 ≤ i ∧ i < addr.length ∧ lastColon addr = lastColon (addr.take (i + 1).toNat))
+    (measure := fun i => (i + 1).toNat)
+    (model := fun _ => match lastColon addr with
+      | none => .ok (.inl (-1))
+      | some _ => match splitHostPort addr with
+        | .ok r => .ok (.inr r)
+        | .error e => .error e)]
+  · simp only [bind, Except.bind, pure, Except.pure]
+    cases hlc : lastColon addr with
+    | none => simp [splitHostPort, hlc]
+    | some j =>
+      simp only []
+      cases splitHostPort addr <;> rfl
+  · intro i ⟨h0, hl, hinv⟩
+    simp only [StepOK, pure, Except.pure]
+    by_cases hi : i ≥ 0
+    · obtain ⟨n, rfl⟩ : ∃ n : Nat, i = n := ⟨i.toNat, by omega⟩
+      have hn : n < addr.length := by omega
+      have e1 : ((n : Int) + 1).toNat = n + 1 := by omega
+      rw [e1, List.take_succ_eq_append_getElem hn, lastColon_concat] at hinv
+      simp only [hi, decide_true, idx_int, idxI_ok addr n hn, bind, Except.bind]
+      by_cases hc : addr[n] = colon
+      · have hc' : addr[n] = 58 := hc
+        simp only [hc, if_true, List.length_take, Nat.min_eq_left (Nat.le_of_lt hn)] at hinv
+        have hpos : 0 < addr.length := by omega
+        have ha0 : Glb.idx? addr 0 = .ok addr[0] := idx?_ok addr 0 hpos
+        have hI0 : idxI addr ((0 : Nat) : Int) = .ok addr[0] := idxI_ok addr 0 hpos
+        have hsf : sliceFrom addr ((n : Int) + 1) = Glb.slice? addr (n + 1) addr.length := by
+          have := sliceFrom_nat addr (n + 1)
+          simpa using this
+        simp only [hc', hinv, splitHostPort, idx_natlit, ha0, hI0, hsf, bind, Except.bind, pure, Except.pure,
+          beq_self_eq_true, if_true]
+        by_cases hb : addr[0] = lbr
+        · have hb' : addr[0] = 91 := hb
+          obtain ⟨m, rfl⟩ : ∃ m, n = m + 1 := by
+            cases n with
+            | zero => rw [hb'] at hc'; exact absurd hc' (by decide)
+            | succ m => exact ⟨m, rfl⟩
+          have e2 : ((m + 1 : Nat) : Int) - 1 = (m : Int) := by omega
+          have hs1 : slice addr 1 (m : Int) = Glb.slice? addr 1 m := by
+            simpa using slice_nat addr 1 m
+          have hs0 : slice addr 0 ((m + 1 : Nat) : Int) = Glb.slice? addr 0 (m + 1) := by
+            simpa using slice_nat addr 0 (m + 1)
+          simp only [hb, e2, idxI_nat, hs1, hs0, idxPred?, slicePred?, if_true, Nat.add_sub_cancel,
+            Nat.succ_ne_zero, if_false]
+          generalize Glb.idx? addr m = x1
+          generalize Glb.slice? addr 1 m = x2
+          generalize Glb.slice? addr 0 (m + 1) = x3
+          generalize Glb.slice? addr (m + 1 + 1) (List.length addr) = x4
+          rcases x1 with _ | v
+          · simp [lbr]
+          · by_cases hv : v = 93
+            · rcases x2 with _ | _ <;> rcases x4 with _ | _ <;> simp [hv, rbr, lbr]
+            · rcases x3 with _ | _ <;> rcases x4 with _ | _ <;> simp [hv, rbr, lbr]
+        · have hb' : ¬ addr[0] = 91 := hb
+          have hs0 : slice addr 0 (n : Int) = Glb.slice? addr 0 n := by
+            simpa using slice_nat addr 0 n
+          simp only [hb, hb', hs0, if_false, beq_iff_eq, Bool.false_eq_true]
+          generalize Glb.slice? addr 0 n = x3
+          generalize Glb.slice? addr (n + 1) (List.length addr) = x4
+          rcases x3 with _ | _ <;> rcases x4 with _ | _ <;> simp
+      · have hc' : ¬ addr[n] = 58 := hc
+        simp only [hc, if_false] at hinv
+        simp [hc']
+        exact ⟨by omega, by omega, hinv⟩
+    · have : i = -1 := by omega
+      subst this
+      simp at hinv
+      simp [hinv, lastColon]
+  · refine ⟨by simp only [len_eq]; omega, by simp only [len_eq]; omega, ?_⟩
+    simp
+  · simp only [len_eq]; omega
+
+end SplitHostPort
+
+/-! ### httpd.(*Params).Get
+
+  Exact equality (panic payloads included) with the specification `paramsGetSpec` below and with the
+  existing model `Glb.Router.paramsGet` (which returns an `Option` instead of `(value, found)`). -/
+
+/-- `(*Params).Get` returns `(value, found)`; the model `Glb.Router.paramsGet` an `Option` -/
+def optPair : Option Bytes → Bytes × Bool
+  | some v => (v, true)
+  | none => ([], false)
+
+/-- specification of `(*Params).Get`, self-contained -/
+def paramsGetSpec (K V : List Bytes) (key : Bytes) : M (Bytes × Bool) :=
+  match Glb.Router.firstIdx key K with
+  | some i => match Glb.idx? V i with
+    | .ok v => .ok (v, true)
+    | .error e => .error e
+  | none => .ok ([], false)
+
+theorem Params_Get_eq (K V : List Bytes) (key : Bytes) :
+    Glb.Tr.Httpd.Params_Get K V key = paramsGetSpec K V key := by
+  unfold Glb.Tr.Httpd.Params_Get
+  dsimp only
+  rw [loop_eq (σ := Int) (ρ := Bytes × Bool)
+    (Inv := fun i => 0 ≤ i ∧ i ≤ K.length)
+    (measure := fun i => ((K.length : Int) - i).toNat)
+    (model := fun i => match Glb.Router.firstIdx key (K.drop i.toNat) with
+      | none => .ok (.inl (K.length : Int))
+      | some j => match Glb.idx? V (i.toNat + j) with
+        | .ok v => .ok (.inr (v, true))
+        | .error e => .error e)]
+  · simp only [bind, Except.bind, pure, Except.pure, Int.toNat_zero, List.drop_zero, paramsGetSpec, Nat.zero_add]
+    cases Glb.Router.firstIdx key K with
+    | none => rfl
+    | some j => simp only []; cases Glb.idx? V j <;> rfl
+  · intro i ⟨h0, hl⟩
+    obtain ⟨n, rfl⟩ : ∃ n : Nat, i = n := ⟨i.toNat, by omega⟩
+    simp only [StepOK, pure, Except.pure, len_eq, Int.toNat_natCast]
+    by_cases hn : n < K.length
+    · obtain ⟨c, rest, hd⟩ : ∃ c rest, K.drop n = c :: rest := by
+        cases h : K.drop n with
+        | nil => have := length_of_drop_nil K n h; omega
+        | cons c rest => exact ⟨c, rest, rfl⟩
+      have hc := idx_drop K n c rest hd
+      have hrest := drop_succ_of_drop K n c rest hd
+      have hn' : ((n : Int) < (K.length : Int)) := by omega
+      simp only [hn', decide_true, hc, bind, Except.bind, hd, Glb.Router.firstIdx, beq_iff_eq]
+      by_cases h1 : c = key
+      · simp only [h1, if_true, idx_int, idxI_nat, Nat.add_zero]
+        cases Glb.idx? V n <;> rfl
+      · have : ((n : Int) + 1).toNat = n + 1 := by omega
+        simp only [h1, if_false, this, hrest]
+        refine ⟨⟨by omega, by omega⟩, by omega, ?_⟩
+        cases Glb.Router.firstIdx key rest with
+        | none => rfl
+        | some j => simp only [Option.map]; rw [show n + (j + 1) = n + 1 + j by omega]
+    · have hn' : ¬ ((n : Int) < (K.length : Int)) := by omega
+      have : K.drop n = [] := List.drop_of_length_le (by omega)
+      simp [hn', this, Glb.Router.firstIdx]
+      omega
+  · simp
+  · simp; omega
+
+/-- the same, against the existing model `Glb.Router.paramsGet` (Model/Router.lean) -/
+theorem Params_Get_eq_model (K V : List Bytes) (key : Bytes) :
+    Glb.Tr.Httpd.Params_Get K V key = optPair <$> Glb.Router.paramsGet ⟨K, V⟩ key := by
+  rw [Params_Get_eq]
+  unfold paramsGetSpec Glb.Router.paramsGet
+  cases Glb.Router.firstIdx key K with
+  | none => rfl
+  | some i => simp only []; cases Glb.idx? V i <;> rfl
+
+theorem firstIdx_of_first (key : Bytes) (K : List Bytes) (i : Nat) (hi : i < K.length) (hk : K[i] = key)
+    (hmin : ∀ j, j < i → K[j]? ≠ some key) : Glb.Router.firstIdx key K = some i := by
+  induction K generalizing i with
+  | nil => simp at hi
+  | cons k r ih =>
+    cases i with
+    | zero => simp at hk; simp [Glb.Router.firstIdx, hk]
+    | succ i =>
+      have h0 : k ≠ key := by simpa using hmin 0 (by omega)
+      simp only [Glb.Router.firstIdx, h0, if_false]
+      rw [ih i (by simpa using hi) (by simpa using hk) (fun j hj => by simpa using hmin (j + 1) (by omega))]
+      rfl
+
+theorem firstIdx_none (key : Bytes) (K : List Bytes) (h : key ∉ K) : Glb.Router.firstIdx key K = none := by
+  induction K with
+  | nil => rfl
+  | cons k r ih =>
+    simp only [List.mem_cons, not_or] at h
+    simp [Glb.Router.firstIdx, Ne.symm h.1, ih h.2]
+
+theorem firstIdx_lt (key : Bytes) (K : List Bytes) (i : Nat) (h : Glb.Router.firstIdx key K = some i) :
+    i < K.length := by
+  induction K generalizing i with
+  | nil => simp [Glb.Router.firstIdx] at h
+  | cons k r ih =>
+    simp only [Glb.Router.firstIdx] at h
+    by_cases hk : k = key
+    · simp [hk] at h; subst h; simp
+    · simp only [hk, if_false] at h
+      cases hr : Glb.Router.firstIdx key r with
+      | none => simp [hr] at h
+      | some j => simp [hr] at h; subst h; have := ih j hr; simp; omega
+
+/-- found: `i` is the first index with `K[i] = key`; the result is `V[i]`, a panic when `V` is too short -/
+theorem Params_Get_found (K V : List Bytes) (key : Bytes) (i : Nat) (hi : i < K.length) (hk : K[i] = key)
+    (hmin : ∀ j, j < i → K[j]? ≠ some key) :
+    Glb.Tr.Httpd.Params_Get K V key =
+      if h : i < V.length then .ok (V[i], true) else .error (.indexRange i V.length) := by
+  rw [Params_Get_eq, paramsGetSpec, firstIdx_of_first key K i hi hk hmin]
+  by_cases h : i < V.length
+  · simp [h, Glb.idx?]
+  · simp [h, Glb.idx?]
+
+/-- not found -/
+theorem Params_Get_absent (K V : List Bytes) (key : Bytes) (h : key ∉ K) :
+    Glb.Tr.Httpd.Params_Get K V key = .ok ([], false) := by
+  rw [Params_Get_eq, paramsGetSpec, firstIdx_none key K h]
+
+/-- `len(K) ≤ len(V)`: no panic -/
+theorem Params_Get_nopanic (K V : List Bytes) (key : Bytes) (h : K.length ≤ V.length) :
+    ∃ r, Glb.Tr.Httpd.Params_Get K V key = .ok r := by
+  rw [Params_Get_eq, paramsGetSpec]
+  cases hf : Glb.Router.firstIdx key K with
+  | none => exact ⟨_, rfl⟩
+  | some i =>
+    have := firstIdx_lt key K i hf
+    have hv : i < V.length := by omega
+    exact ⟨(V[i], true), by simp [Glb.idx?, hv]⟩
 
 end Glb.Tie.TrMisc
